@@ -574,6 +574,20 @@ impl Stats {
     }
 }
 
+/// the specification survives the guess: a returned equilibrium is AT the requested temperature / pressure
+/// (v = [T, p, ...] as produced by vle_vec / crit vectors); T must be reproduced exactly, p to 1e-7 relative
+fn spec_check(out: &mut Vec<Value>, what: &str, key: &Value, r: &Result<Vec<f64>, String>, t: Option<f64>, p: Option<f64>) {
+    if let Ok(v) = r {
+        let bad_t = t.map(|t| rel(v[0], t) > 1e-12).unwrap_or(false);
+        let bad_p = p.map(|p| rel(v[1], p) > 1e-7).unwrap_or(false);
+        if bad_t || bad_p {
+            out.push(json!({"key": key, "call": what, "result": v, "specified_T": t, "specified_p": p,
+                "broken": format!("{what}: the returned state is not at the specified {} (diagram_accepted / accepted_only: the acceptance test is taken at the requested point)",
+                    if bad_t { "temperature" } else { "pressure" })}));
+        }
+    }
+}
+
 // ------------------------------------------------------------------------------------------------
 // recorded drivers
 
@@ -851,6 +865,32 @@ fn record_lle(sys: &Sys, t_frac: f64, z1: f64, p_lo: f64, p_hi: f64, npoints: us
     ))
 }
 
+/// the same driver with a pressure specification: a T-x-y diagram from flashes, continuation in temperature
+fn record_lle_p(sys: &Sys, p: f64, z1: f64, t_lo: f64, t_hi: f64, npoints: usize) -> Option<(TieCase, PhaseDiagram<Eos, 2>)> {
+    let feed = Moles::from_reduced(arr1(&[z1, 1.0 - z1]));
+    verif_trace_start();
+    let dia = guard(|| PhaseDiagram::lle(&sys.eos, Pressure::from_reduced(p), &feed, Temperature::from_reduced(t_lo), Temperature::from_reduced(t_hi), Some(npoints)));
+    let evs = verif_trace_take();
+    let dia = dia.ok()?;
+    let calls = parse_calls(&evs, "tp_flash");
+    let origins = origins(Kind::Flash, &calls, &None);
+    let observed: Vec<usize> = dia.states.iter().map(|s| match_state(Kind::Flash, &calls, s)).collect();
+    let ts: Vec<f64> = calls.iter().map(|c| c.spec[0]).collect();
+    Some((
+        TieCase {
+            name: format!("lle_p:{}:{}:{}:{}", sys.name, p, z1, npoints),
+            kind: Kind::Flash,
+            reset_given: false,
+            calls,
+            origins,
+            observed_states: observed,
+            assembly: "plain".into(),
+            info: json!({"driver": "PhaseDiagram::lle (pressure specification: flash continuation in temperature)", "system": sys.name, "p": p, "z1": z1, "T_lo": t_lo, "T_hi": t_hi, "npoints": npoints, "temperatures": ts}),
+        },
+        dia,
+    ))
+}
+
 // ------------------------------------------------------------------------------------------------
 // stand-alone solves
 
@@ -903,6 +943,7 @@ fn main() {
     let mut singles: Vec<(String, Kind, Call)> = Vec::new();
     let mut st = Stats::new();
     let mut missing: Vec<Value> = Vec::new();
+    let mut spec_viol: Vec<Value> = Vec::new();
     let mut dropped: Vec<Value> = Vec::new();
     let mut grid_cmp = 0usize;
 
@@ -983,6 +1024,7 @@ fn main() {
                 verif_trace_start();
                 let with = pure_at(&sys.eos, t, Some(g));
                 let evs = verif_trace_take();
+                spec_check(&mut spec_viol, "PhaseEquilibrium::pure(T, Some(solution at T_g))", &json!({"system": sys.name, "T": t, "T_guess": tg}), &vv(&with), Some(t), None);
                 st.cmp("PhaseEquilibrium::pure(T, Some(solution at T_g))", json!({"system": sys.name, "T": t, "T_guess": tg, "T_c": tc}), &vv(&with), &vv(&alone), TOL_PURE);
                 if k < 2 {
                     if let Some(c) = parse_calls(&evs, "pure_t").pop() {
@@ -994,6 +1036,7 @@ fn main() {
                     let p = a.vapor().pressure(Contributions::Total);
                     let wp = guard(|| PhaseEquilibrium::pure(&sys.eos, p, Some(g), SolverOptions::default()));
                     let np = guard(|| PhaseEquilibrium::pure(&sys.eos, p, None, SolverOptions::default()));
+                    spec_check(&mut spec_viol, "PhaseEquilibrium::pure(p, Some(solution at T_g))", &json!({"system": sys.name, "p": p.to_reduced(), "T_guess": tg}), &vv(&wp), None, Some(p.to_reduced()));
                     st.cmp("PhaseEquilibrium::pure(p, Some(solution at T_g))", json!({"system": sys.name, "p": p.to_reduced(), "T_solution": t, "T_guess": tg, "T_c": tc}), &vv(&wp), &vv(&np), TOL_PURE);
                 }
             }
@@ -1188,6 +1231,30 @@ fn main() {
                 }
                 ties.push(case);
             }
+            // ... and in temperature at the pressure of the middle of the envelope (T-x-y diagram from flashes)
+            let pm = 0.5 * (pb + pd);
+            let zs = arr1(&[z1, 1.0 - z1]);
+            let tb = guard(|| PhaseEquilibrium::bubble_point(&sys.eos, Pressure::from_reduced(pm), &zs, Some(Temperature::from_reduced(t)), None, opts2()));
+            let td = guard(|| PhaseEquilibrium::dew_point(&sys.eos, Pressure::from_reduced(pm), &zs, Some(Temperature::from_reduced(t)), None, opts2()));
+            if let (Ok(tb), Ok(td)) = (tb, td) {
+                let (tb, td) = (tb.vapor().temperature.to_reduced(), td.vapor().temperature.to_reduced());
+                if td - tb > 1e-3 {
+                    let (lo, hi) = (tb - 0.25 * (td - tb), td + 0.25 * (td - tb));
+                    if let Some((case, dia)) = record_lle_p(sys, pm, z1, lo, hi, 9 + rng.below(4)) {
+                        let feed = Moles::from_reduced(zs.clone());
+                        for (k, c) in case.calls.iter().enumerate() {
+                            let tk = c.spec[0];
+                            let key = json!({"system": sys.name, "driver": "PhaseDiagram::lle (pressure specification)", "p": pm, "z1": z1, "point": k, "T": tk, "T_lo": lo, "T_hi": hi, "npoints": case.info["npoints"]});
+                            if let Some(s) = dia.states.iter().find(|s| match_state(Kind::Flash, std::slice::from_ref(c), s) == 0) {
+                                let alone = guard(|| PhaseEquilibrium::tp_flash(&sys.eos, Temperature::from_reduced(tk), Pressure::from_reduced(pm), &feed, None, SolverOptions::default(), None));
+                                spec_check(&mut spec_viol, "PhaseDiagram::lle(p, feed, T_lo, T_hi) state", &key, &Ok(vle_vec(s)), Some(tk), Some(pm));
+                                st.cmp("PhaseDiagram::lle (pressure specification) state vs stand-alone tp_flash(T, p, feed, None)", key, &Ok(vle_vec(s)), &vv(&alone), flash_tol(pb, pd));
+                            }
+                        }
+                        ties.push(case);
+                    }
+                }
+            }
         }
     }
 
@@ -1266,6 +1333,20 @@ fn main() {
                         if let Ok(g) = nv_flash(pg, None) {
                             let with = nv_flash(p, Some(&g));
                             st.cmp("tp_flash(T, p, feed, Some(flash at p_g), non_volatile_components = [heavy])", json!({"system": sys.name, "T": t, "p": p, "z1": z1, "p_guess": pg, "non_volatile": heavy}), &vv(&with), &vv(&nv_alone), flash_tol(pb, pd));
+                        }
+                    }
+                    // a guess from another temperature (isobaric / general continuation): the flash at (T_g, p_g inside the envelope at T_g)
+                    {
+                        let tg2 = (t + rng.range(-0.1, 0.1) * tl).clamp(0.6 * tl, 0.95 * tl);
+                        if let (Ok(bg), Ok(dg)) = (bubble_at(&sys.eos, tg2, z1, None, None), dew_at(&sys.eos, tg2, z1, None, None)) {
+                            let (pbg, pdg) = (bg.vapor().pressure(Contributions::Total).to_reduced(), dg.vapor().pressure(Contributions::Total).to_reduced());
+                            let pg2 = pdg + rng.range(0.1, 0.9) * (pbg - pdg);
+                            if let Ok(g) = flash(tg2, pg2, None) {
+                                let with = flash(t, p, Some(&g));
+                                let key = json!({"system": sys.name, "T": t, "p": p, "z1": z1, "T_guess": tg2, "p_guess": pg2});
+                                spec_check(&mut spec_viol, "tp_flash(T, p, feed, Some(flash at (T_g, p_g)))", &key, &vv(&with), Some(t), Some(p));
+                                st.cmp("tp_flash(T, p, feed, Some(flash at (T_g, p_g)))", key, &vv(&with), &vv(&flash(t, p, None)), flash_tol(pb, pd));
+                            }
                         }
                     }
                     let alone = flash(t, p, None);
@@ -1463,8 +1544,52 @@ fn main() {
         }
     }
 
-    // ---------------------------------------------------------------- H. caller-supplied solver options (inner, outer) for bubble / dew points
     let wides = wide_systems(full);
+    // binary critical points at given temperature / pressure with start values (continuation along the critical line)
+    let critb = |r: &Result<State<Eos>, String>| {
+        r.as_ref()
+            .map(|s| vec![s.temperature.to_reduced(), s.pressure(Contributions::Total).to_reduced(), s.density.to_reduced(), s.molefracs[0]])
+            .map_err(|e| e.clone())
+    };
+    for sys in bins.iter().chain(wides.iter()) {
+        if let Some(o) = &only {
+            if !sys.name.contains(o.as_str()) {
+                continue;
+            }
+        }
+        let (tl, th) = (sys.tc[0].min(sys.tc[1]), sys.tc[0].max(sys.tc[1]));
+        for _ in 0..(if full { 12 } else { 4 }) {
+            let t = tl + rng.range(0.15, 0.85) * (th - tl);
+            let tq = Temperature::from_reduced(t);
+            let alone = guard(|| State::critical_point_binary(&sys.eos, tq, None, None, SolverOptions::default()));
+            if let Ok(a) = &alone {
+                let xa = a.molefracs[0];
+                let p = a.pressure(Contributions::Total);
+                // a neighbouring point of the critical line supplies the start values
+                let t2 = (t + rng.range(-0.1, 0.1) * (th - tl)).clamp(tl + 0.05 * (th - tl), th - 0.05 * (th - tl));
+                let x0 = (xa + rng.range(-0.1, 0.1)).clamp(0.02, 0.98);
+                let key = json!({"system": sys.name, "T": t, "initial_temperature": t2, "initial_molefracs": [x0, 1.0 - x0]});
+                for (it, ix) in [(Some(t2), None), (None, Some([x0, 1.0 - x0])), (Some(t2), Some([x0, 1.0 - x0]))] {
+                    let with = guard(|| State::critical_point_binary(&sys.eos, tq, it.map(Temperature::from_reduced), ix, SolverOptions::default()));
+                    let mut k2 = key.clone();
+                    k2["given"] = json!({"initial_temperature": it.is_some(), "initial_molefracs": ix.is_some()});
+                    spec_check(&mut spec_viol, "State::critical_point_binary(T, initial_temperature, initial_molefracs)", &k2, &critb(&with), Some(t), None);
+                    st.cmp("State::critical_point_binary(T, start values) vs (T, None, None)", k2, &critb(&with), &critb(&alone), TOL_CRIT);
+                }
+                // the same point through the pressure specification
+                let ft = rng.range(0.85, 1.15);
+                let wp = guard(|| State::critical_point_binary(&sys.eos, p, Some(Temperature::from_reduced(t * ft)), Some([x0, 1.0 - x0]), SolverOptions::default()));
+                let np = guard(|| State::critical_point_binary(&sys.eos, p, Some(tq), Some([xa, 1.0 - xa]), SolverOptions::default()));
+                let k3 = json!({"system": sys.name, "p": p.to_reduced(), "T_solution": t, "initial_temperature": t * ft, "initial_molefracs": [x0, 1.0 - x0]});
+                spec_check(&mut spec_viol, "State::critical_point_binary(p, initial_temperature, initial_molefracs)", &k3, &critb(&wp), None, Some(p.to_reduced()));
+                // (no comparison of values at given pressure: the critical pressure has a maximum along the critical line, so one
+                //  pressure can have two critical points; only the specification must be reproduced)
+                spec_check(&mut spec_viol, "State::critical_point_binary(p, Some(T), Some(x)) started at the solution", &k3, &critb(&np), None, Some(p.to_reduced()));
+            }
+        }
+    }
+
+    // ---------------------------------------------------------------- H. caller-supplied solver options (inner, outer) for bubble / dew points
     let n_opt = if full { 60 } else { 12 };
     let inner_tols = [Some(1e-2), Some(1e-4), Some(1e-6), None];
     let inner_iters = [None, Some(1usize), Some(2), Some(3)];
@@ -1535,7 +1660,7 @@ fn main() {
         "dew_lines": dew_lines,
         "driver_errors": panics,
         "crit_ties": crit_ties,
-        "rejected_results": rejected,
+        "rejected_results": rejected.into_iter().chain(spec_viol.into_iter()).collect::<Vec<_>>(),
         "ties": ties.iter().map(tie_json).collect::<Vec<_>>(),
         "singles": singles.iter().map(|(n, k, c)| json!({"name": n, "kind": k.solver(), "call": call_json(c, 0)})).collect::<Vec<_>>(),
         "support": {
